@@ -54,6 +54,7 @@ pub struct HostCtx {
     t0: tokio::time::Instant,
     #[allow(clippy::type_complexity)]
     ring: Option<(turmoil::io_uring::IoUring, turmoil::fs::shim::std::fs::File, Vec<Vec<u8>>, u64)>,
+    direct_held: Option<turmoil::fs::shim::std::fs::File>,
 }
 
 fn slot_of(tok: &str) -> usize {
@@ -183,7 +184,7 @@ fn drain_oracle() {
 
 impl HostCtx {
     pub fn new(h: usize) -> Self {
-        HostCtx { h, slots: Vec::new(), t0: tokio::time::Instant::now(), ring: None }
+        HostCtx { h, slots: Vec::new(), t0: tokio::time::Instant::now(), ring: None, direct_held: None }
     }
 
     fn put(&mut self, s: usize, o: Obj) {
@@ -691,6 +692,18 @@ impl HostCtx {
                     Err(e) => format!("err {}", errkind(&e)),
                 }
             }
+            "fs_direct_hold" => {
+                // a journal opened with O_DIRECT and held open for as long as this incarnation lives (the first
+                // descriptor it opens): after crash + bounce the descriptor numbers start again
+                use turmoil::fs::shim::std::fs as sfs;
+                match sfs::OpenOptions::new().read(true).write(true).create(true).direct_io(true).open("/journal") {
+                    Ok(f) => {
+                        self.direct_held = Some(f);
+                        "ok".into()
+                    }
+                    Err(e) => format!("err {}", errkind(&e)),
+                }
+            }
             "uring_submit" => {
                 // submit n writes to one file through a ring kept in the host context
                 use std::os::fd::AsRawFd;
@@ -707,9 +720,12 @@ impl HostCtx {
                     let fd = types::Fd(file.as_raw_fd());
                     for _ in 0..n {
                         *next += 1;
-                        bufs.push(vec![*next as u8; 4]);
+                        // even batches: sector-sized writes at sector offsets (the shape O_DIRECT I/O has; on this plain
+                        // file it is ordinary I/O and must not depend on where the buffer happens to live)
+                        let (len, at) = if n % 2 == 0 { (512usize, *next * 512) } else { (4usize, *next * 4) };
+                        bufs.push(vec![*next as u8; len]);
                         let b = bufs.last().unwrap();
-                        let e = opcode::Write::new(fd, b.as_ptr(), b.len() as u32).offset((*next * 4) as u64).build().user_data(*next);
+                        let e = opcode::Write::new(fd, b.as_ptr(), b.len() as u32).offset(at as u64).build().user_data(*next);
                         unsafe {
                             ring.submission().push(&e).map_err(|_| std::io::Error::other("sq full"))?;
                         }
